@@ -43,21 +43,21 @@ GenInit == /\ st = Zero
            /\ returned = {} /\ dup = FALSE
            /\ rets = [c \in Callers |-> <<>>]
 
-Tick == clock < MaxClock /\ clock' = clock + 1 /\ UNCHANGED <<st, back, pc, loc, ncalls, returned, dup, rets>>
+Tick == clock < MaxClock /\ clock' = clock + 1 /\ UNCHANGED <<st, back, pc, loc, ncalls, returned, dup, rets, cvars>>
 StepBack == clock > 0 /\ back < MaxBack /\ clock' = clock - 1 /\ back' = back + 1
-            /\ UNCHANGED <<st, pc, loc, ncalls, returned, dup, rets>>
+            /\ UNCHANGED <<st, pc, loc, ncalls, returned, dup, rets, cvars>>
 
 \* Next() is entered / an attempt starts: t := now()
 ReadClock(c) == /\ pc[c] \in {"idle", "retry"}
                 /\ pc[c] = "idle" => ncalls[c] < MaxCalls
                 /\ loc' = [loc EXCEPT ![c].t = clock, ![c].att = IF pc[c] = "idle" THEN 0 ELSE @]
                 /\ pc' = [pc EXCEPT ![c] = "load"]
-                /\ UNCHANGED <<st, clock, back, ncalls, returned, dup, rets>>
+                /\ UNCHANGED <<st, clock, back, ncalls, returned, dup, rets, cvars>>
 \* current := atomic.LoadUint64(&g.state); compute the candidate
 LoadState(c) == /\ pc[c] = "load"
                 /\ loc' = [loc EXCEPT ![c].cur = st, ![c].new = Compute(st, loc[c].t)]
                 /\ pc' = [pc EXCEPT ![c] = "cas"]
-                /\ UNCHANGED <<st, clock, back, ncalls, returned, dup, rets>>
+                /\ UNCHANGED <<st, clock, back, ncalls, returned, dup, rets, cvars>>
 Return(c, s) == /\ returned' = returned \cup {IdOf(s)}
                 /\ dup' = (dup \/ IdOf(s) \in returned)
                 /\ rets' = [rets EXCEPT ![c] = Append(@, IdOf(s))]
@@ -72,18 +72,18 @@ Cas(c) == /\ pc[c] = "cas"
              ELSE /\ loc' = [loc EXCEPT ![c].att = @ + 1]
                   /\ pc' = [pc EXCEPT ![c] = IF loc[c].att + 1 >= MaxAttempts THEN "fallback" ELSE "retry"]
                   /\ UNCHANGED <<st, ncalls, returned, dup, rets>>
-          /\ UNCHANGED <<clock, back>>
+          /\ UNCHANGED <<clock, back, cvars>>
 \* state = atomic.AddUint64(&g.state, 1)
 Fallback(c) == /\ pc[c] = "fallback"
                /\ AssumeNoFallbackOverflow => st.s < SeqMax
                /\ st' = Inc(st)
                /\ Return(c, Inc(st))
-               /\ UNCHANGED <<loc, clock, back>>
+               /\ UNCHANGED <<loc, clock, back, cvars>>
 
 GenNext == \/ Tick \/ StepBack
            \/ \E c \in Callers : ReadClock(c) \/ LoadState(c) \/ Cas(c) \/ Fallback(c)
 
-SpecGen == GenInit /\ str = <<>> /\ verdict = "n/a" /\ [][GenNext /\ UNCHANGED cvars]_vars
+SpecGen == GenInit /\ str = <<>> /\ verdict = "n/a" /\ [][GenNext]_vars
 
 AllDistinct == ~dup
 NonZero == Zero \notin returned
